@@ -5,6 +5,7 @@ cd "$(dirname "$0")"
 export CARGO_NET_OFFLINE=true
 python3 tools/vendor_patch.py --check
 python3 tools/gen.py --check
+python3 tools/rewrite_repo.py
 cd mc
 cargo build --release --offline -q 2>&1 | grep -E '^(error|warning: unused)' -A8 || true
 test -x /verif/target/release/mc
